@@ -63,6 +63,13 @@ func ParseServer(tok string) (server.Server, error) {
 			return server.Blank, err
 		}
 		s.RefreshedAt = time.Unix(0, ns).UTC()
+		if qp%2 == 0 { // the same instant as a zoned value: only instants may matter
+			s.RefreshedAt = s.RefreshedAt.In(time.FixedZone("verif", -7200))
+		}
+	} else if qp%2 == 1 {
+		// "never refreshed" is the zero INSTANT, whatever its representation: a zero time that went through a zone conversion
+		// is still zero (IsZero), though not == time.Time{}
+		s.RefreshedAt = time.Time{}.In(time.FixedZone("verif", 3600))
 	}
 	return s, nil
 }
@@ -120,11 +127,24 @@ func ParseFilterSet(parts []string) (filterset.ServerFilterSet, error) {
 	}
 	ws, _ := strconv.Atoi(parts[0])
 	ns, _ := strconv.Atoi(parts[1])
+	// a mask of several bits reaches the filter set either in one call or bit by bit (the builders accumulate): both must
+	// mean the same
+	add := func(mask int, f func(ds.DiscoveryStatus)) {
+		if mask%3 == 0 {
+			f(ds.DiscoveryStatus(mask))
+			return
+		}
+		for bit := 1; bit <= mask; bit <<= 1 {
+			if mask&bit != 0 {
+				f(ds.DiscoveryStatus(bit))
+			}
+		}
+	}
 	if ws != 0 {
-		fs = fs.WithStatus(ds.DiscoveryStatus(ws))
+		add(ws, func(m ds.DiscoveryStatus) { fs = fs.WithStatus(m) })
 	}
 	if ns != 0 {
-		fs = fs.NoStatus(ds.DiscoveryStatus(ns))
+		add(ns, func(m ds.DiscoveryStatus) { fs = fs.NoStatus(m) })
 	}
 	tm := func(s string) time.Time {
 		if s == "z" {
